@@ -40,6 +40,11 @@ int main(void){ cache_page *cp=0;
  printf("clockPageType %d\n", (int) VBI_NONSTD_SUBPAGES);
  printf("unknownPageType %d\n", (int) VBI_UNKNOWN_PAGE);
  printf("anySubno %d\n", (int) VBI_ANY_SUBNO);
+ { struct ttx_page_stat ps; unsigned long long one = 1;
+   printf("nSubMod %llu\n", one << (8 * sizeof(ps.n_subpages)));
+   printf("maxSubMod %llu\n", one << (8 * sizeof(ps.max_subpages)));
+   printf("subnoMinMod %llu\n", one << (8 * sizeof(ps.subno_min)));
+   printf("subnoMaxMod %llu\n", one << (8 * sizeof(ps.subno_max))); }
  return 0;}
 '''
 
@@ -57,7 +62,33 @@ def from_source():
     m = re.search(r"ca->n_networks_limit\s*=\s*(\d+)\s*;", src)
     if not m:
         raise SystemExit("gen_cache: n_networks_limit initialiser not found")
-    return death, limit, int(m.group(1))
+    nlimit = int(m.group(1))
+    # cache_network_add_page: when does the recorded sub-page range start over?
+    body = re.search(r"cache_network_add_page\s*\(.*?\n}\n", src, flags=re.S)
+    if not body:
+        raise SystemExit("gen_cache: cache_network_add_page not found")
+    b = re.sub(r"/\*.*?\*/", " ", body.group(0), flags=re.S)
+    b = re.sub(r"\s+", " ", b)
+    single_min = re.search(r"if \(1 == ps->n_subpages \|\| cp->subno < ps->subno_min\) ps->subno_min = cp->subno;", b)
+    single_max = re.search(r"if \(1 == ps->n_subpages \|\| cp->subno > ps->subno_max\) ps->subno_max = cp->subno;", b)
+    legacy_min = re.search(r"if \(0 == ps->subno_min \|\| cp->subno < ps->subno_min\) ps->subno_min = cp->subno;", b)
+    legacy_max = re.search(r"if \(cp->subno > ps->subno_max\) ps->subno_max = cp->subno;", b)
+    if single_min and single_max:
+        rule = True
+    elif legacy_min and legacy_max:
+        rule = False
+    else:
+        raise SystemExit("gen_cache: sub-page range rule of cache_network_add_page not recognised")
+    # _vbi_cache_foreach_page: look-up used inside the loop, clamp to the first sub-page
+    walk = re.search(r"_vbi_cache_foreach_page\s*\(.*?\n}\n", src, flags=re.S)
+    if not walk:
+        raise SystemExit("gen_cache: _vbi_cache_foreach_page not found")
+    w = re.sub(r"/\*.*?\*/", " ", walk.group(0), flags=re.S)
+    w = re.sub(r"\s+", " ", w)
+    exact = "cp = page_by_pgno (ca, cn, pgno, subno, -1); if (NULL != cp) cp = cache_page_ref (cp);" in w
+    clamp = "if (dir > 0 && subno < ps->subno_min) { subno = ps->subno_min; break; }" in w
+    stop2 = w.count("if (wrapped) return -1;") == 2
+    return death, limit, nlimit, rule, exact, clamp, stop2
 
 def main():
     with tempfile.TemporaryDirectory() as d:
@@ -71,7 +102,7 @@ def main():
             raise SystemExit("gen_cache: probe does not compile:\n" + r.stdout.decode()[-2000:])
         out = subprocess.run([exe], stdout=subprocess.PIPE).stdout.decode()
     vals = [l.split() for l in out.strip().split("\n")]
-    death, limit, nlimit = from_source()
+    death, limit, nlimit, rule, exact, clamp, stop2 = from_source()
     lines = ["-- GENERATED by translate/gen_cache.py from src/cache-priv.h, src/cache.c - do not edit",
              "namespace Zvbi.Gen.Cache", ""]
     for k, v in vals:
@@ -85,6 +116,15 @@ def main():
     lines.append("/-- `ca->memory_limit` set by vbi_cache_new (not changeable in libzvbi 0.2) -/")
     lines.append("def memoryLimit0 : Nat := %d" % limit)
     lines.append("def nNetworksLimit0 : Nat := %d" % nlimit)
+    lines.append("/-- cache_network_add_page: the recorded sub-page range starts over when the page is the only cached")
+    lines.append("    sub-page of its number (`1 == ps->n_subpages`); false = the older `0 == ps->subno_min` test -/")
+    lines.append("def subRangeRestartsWhenSingle : Bool := %s" % ("true" if rule else "false"))
+    lines.append("/-- _vbi_cache_foreach_page: look-up inside the loop is page_by_pgno + cache_page_ref (exact) -/")
+    lines.append("def walkExactLookup : Bool := %s" % ("true" if exact else "false"))
+    lines.append("/-- _vbi_cache_foreach_page: clamps to the first sub-page in walking direction -/")
+    lines.append("def walkClampsToFirst : Bool := %s" % ("true" if clamp else "false"))
+    lines.append("/-- _vbi_cache_foreach_page: returns -1 on the second wrap-around -/")
+    lines.append("def walkStopsAtSecondWrap : Bool := %s" % ("true" if stop2 else "false"))
     lines += ["", "end Zvbi.Gen.Cache", ""]
     text = "\n".join(lines)
     old = open(OUT).read() if os.path.exists(OUT) else None
